@@ -1,0 +1,89 @@
+//go:build verif
+
+package p9
+
+import "fmt"
+
+// This file is compiled only with the "verif" build tag. It exposes, read-only,
+// three pieces of internal state to the external verification harness. It adds
+// code only; nothing in the package refers to it.
+
+// VerifPool wraps the tag/fid allocator so that its Get/Put sequences can be
+// enumerated directly.
+type VerifPool struct{ p pool }
+
+// VerifNewPool returns an allocator handing out values in [start, limit).
+func VerifNewPool(start, limit uint64) *VerifPool {
+	return &VerifPool{p: pool{start: start, limit: limit}}
+}
+
+// Get calls pool.Get.
+func (v *VerifPool) Get() (uint64, bool) { return v.p.Get() }
+
+// Put calls pool.Put.
+func (v *VerifPool) Put(x uint64) { v.p.Put(x) }
+
+// VerifTreeStats walks the server's path tree under its own locks and returns
+// the number of path nodes and of fid references registered in it.
+func VerifTreeStats(s *Server) (nodes, refs int) {
+	var walk func(pn *pathNode)
+	walk = func(pn *pathNode) {
+		nodes++
+		pn.childMu.RLock()
+		refs += len(pn.childRefNames)
+		kids := make([]*pathNode, 0, len(pn.childNodes))
+		for _, c := range pn.childNodes {
+			kids = append(kids, c)
+		}
+		pn.childMu.RUnlock()
+		for _, c := range kids {
+			walk(c)
+		}
+	}
+	walk(s.pathTree)
+	return
+}
+
+// VerifTreeCheck verifies, under the tree's own locks, that the two child
+// reference maps of every path node agree and that no registered reference has
+// a non-positive count.
+func VerifTreeCheck(s *Server) error {
+	var walk func(pn *pathNode, path string) error
+	walk = func(pn *pathNode, path string) error {
+		pn.childMu.RLock()
+		n := 0
+		for name, m := range pn.childRefs {
+			if len(m) == 0 {
+				pn.childMu.RUnlock()
+				return fmt.Errorf("%s: empty ref set kept for %q", path, name)
+			}
+			for ref := range m {
+				n++
+				if got, ok := pn.childRefNames[ref]; !ok || got != name {
+					pn.childMu.RUnlock()
+					return fmt.Errorf("%s: ref listed under %q but named %q (present=%v)", path, name, got, ok)
+				}
+			}
+		}
+		if n != len(pn.childRefNames) {
+			pn.childMu.RUnlock()
+			return fmt.Errorf("%s: %d refs by name, %d names by ref", path, n, len(pn.childRefNames))
+		}
+		type kid struct {
+			name string
+			pn   *pathNode
+		}
+		var kids []kid
+		for name, c := range pn.childNodes {
+			kids = append(kids, kid{name, c})
+		}
+		pn.childMu.RUnlock()
+		for _, k := range kids {
+			if err := walk(k.pn, path+"/"+k.name); err != nil {
+				return err
+			}
+		}
+		return nil
+	}
+	return walk(s.pathTree, "")
+}
